@@ -18,7 +18,7 @@ import json
 import glom as G
 from glom import (glom, T, S, Spec, Val, Auto, Fill, Match, Pipe, Coalesce, Switch, And, Or, Call, Invoke, Assign,
                   Check, GlomError, MatchError)
-from glom import MODE
+from glom import MODE, Iter
 from glom.grouping import Group
 
 from ..engine import R, Sub
@@ -632,7 +632,14 @@ def reach_ids(v, out=None):
 
 POSITIONS = ['fill', 'coalesce-default', 'call-arg', 'call-kwarg', 't-call-arg', 's-binding', 'assign-value',
              'match-default', 'switch-default', 'and-default', 'or-default', 'check-default', 'invoke-spec-arg',
-             'fill>coalesce-default', 'fill>call-arg', 'fill>call-kwarg', 'fill>s-binding', 'fill>t-call-arg', 'match>call-arg']
+             'fill>coalesce-default', 'fill>call-arg', 'fill>call-kwarg', 'fill>s-binding', 'fill>t-call-arg', 'match>call-arg',
+             'first-default']
+
+
+class _ItemsOf(dict):
+    """the shape target, iterable as a sequence of three items none of which satisfies the key"""
+    def __iter__(self):
+        return iter([1, 2, 3])
 
 
 def eval_in_position(position, shape_spec):
@@ -676,6 +683,10 @@ def eval_in_position(position, shape_spec):
         return glom(t, Fill({'r': T['f'](shape_spec)}))['r'][0][0]
     if position == 'match>call-arg':
         return glom(t, Match(Call(lambda x: x, args=(shape_spec,))))
+    if position == 'first-default':
+        # the target handed to the default is the First spec's own target (here: the dict's 'items' list wrapped so that T['a'] still reads 'a')
+        from glom.streaming import First
+        return glom(t, (lambda d: _ItemsOf(d), First(key=lambda item: False, default=shape_spec)))
     if position == 'invoke-spec-arg':
         return glom(t, Invoke(lambda x: x).specs(Fill(shape_spec)))
     raise AssertionError(position)
